@@ -3,9 +3,11 @@ package p01
 // p01.go: delivery contexts, Exec (the real btcd code), Generate, Facts.
 
 import (
+	"bytes"
 	"fmt"
 	"os"
 	"strings"
+	"sync"
 	"time"
 
 	"github.com/btcsuite/btcd/blockchain"
@@ -99,11 +101,14 @@ func buildScenario(r recipe) *scenario {
 	var s scen
 	var after []delivery
 	switch r.ctx {
-	case "tip", "hdr":
-		s = scen{n + 1, n, 1}
+	case "tip", "hdr", "restart", "tmpltip":
+		s = scen{n + 1, n, 1, 0, 1}
+	case "nopow":
+		// ProcessBlock with BFNoPoWCheck: everything but the hash-vs-target comparison
+		s = scen{n + 1, n, 1, 1, 1}
 	case "tmpl":
 		// CheckConnectBlockTemplate on the tip: nothing is stored, proof of work is not checked
-		s = scen{n, n, 0}
+		s = scen{n, n, 0, 1, 0}
 	case "side2":
 		// main chain: two more blocks; side chain: a plain block, then the candidate, then a child that wins
 		main := bs.p.clone()
@@ -111,7 +116,7 @@ func buildScenario(r recipe) *scenario {
 		m2 := plainBlock(main, 212, blockSpacing)
 		s1 := plainBlock(parent, 213, blockSpacing+3)
 		sc.dels = append(sc.dels, delivery{blk: m1}, delivery{blk: m2}, delivery{blk: s1})
-		s = scen{n + 3, n + 2, 1}
+		s = scen{n + 3, n + 2, 1, 0, 1}
 	case "orphan2":
 		// the candidate itself takes the orphan path: its parent X is a sibling of the tip that arrives later,
 		// so the candidate is then connected by processOrphans through a reorganisation
@@ -122,12 +127,12 @@ func buildScenario(r recipe) *scenario {
 		parent = side
 		x := plainBlock(parent, 400+caseNonce(r), blockSpacing+11)
 		after = append(after, delivery{blk: x, watch: true})
-		s = scen{n + 1, n, 1}
+		s = scen{n + 1, n, 1, 0, 1}
 	case "orphan3":
 		// as orphan2, but the late parent X extends the tip: the candidate is connected by processOrphans directly
 		x := plainBlock(parent, 400+caseNonce(r), blockSpacing+11)
 		after = append(after, delivery{blk: x, watch: true})
-		s = scen{n + 2, n + 1, 1}
+		s = scen{n + 2, n + 1, 1, 0, 1}
 	case "fork":
 		// an unrelated side chain of equal length off block n-2, plus an unrelated orphan, come first
 		side := newPath(v)
@@ -140,15 +145,15 @@ func buildScenario(r recipe) *scenario {
 		f4 := plainBlock(side, 104, blockSpacing)
 		_ = f3
 		sc.dels = append(sc.dels, delivery{blk: f1}, delivery{blk: f2}, delivery{blk: f4})
-		s = scen{n + 1, n, 1}
+		s = scen{n + 1, n, 1, 0, 1}
 	case "side":
 		// the main chain gets one more block first; the candidate is its sibling and wins with a child
 		main := bs.p.clone()
 		m1 := plainBlock(main, 201, blockSpacing+7)
 		sc.dels = append(sc.dels, delivery{blk: m1})
-		s = scen{n + 2, n + 1, 1}
+		s = scen{n + 2, n + 1, 1, 0, 1}
 	case "orphan", "shuffle":
-		s = scen{n + 2, n, 1}
+		s = scen{n + 2, n, 1, 0, 1}
 	default:
 		return nil
 	}
@@ -186,7 +191,7 @@ func buildScenario(r recipe) *scenario {
 	case "hdr":
 		// headers first: the header is offered before the block
 		sc.dels = append(sc.dels, delivery{blk: sc.cand, watch: true, hdr: true}, delivery{blk: sc.cand, watch: true})
-	case "tip", "fork", "tmpl", "orphan2", "orphan3":
+	case "tip", "fork", "tmpl", "orphan2", "orphan3", "nopow", "restart", "tmpltip":
 		sc.dels = append(sc.dels, delivery{blk: sc.cand, watch: true})
 	case "side", "side2":
 		sc.dels = append(sc.dels, delivery{blk: sc.cand, watch: true}, delivery{blk: child(), watch: true})
@@ -327,20 +332,78 @@ func newInst(sc *scenario, key string) (*inst, string) {
 		os.RemoveAll(dir)
 		return nil, "err:db"
 	}
-	cache := uint64(0)
-	if sc.r.cache == 1 {
-		cache = 4 << 20
-	}
-	chain, err := blockchain.New(&blockchain.Config{
-		DB: db, ChainParams: p, TimeSource: fixedClock{sc.v.now()}, UtxoCacheMaxSize: cache,
-		SigCache: txscript.NewSigCache(1000), HashCache: txscript.NewHashCache(1000),
-	})
+	chain, err := blockchain.New(chainConfig(sc, db, p, sc.r.cache))
 	if err != nil {
 		db.Close()
 		os.RemoveAll(dir)
 		return nil, "err:new"
 	}
 	return &inst{key: key, chain: chain, db: db, dir: dir, delivered: map[chainhash.Hash]bool{}}, ""
+}
+
+var instMu sync.Mutex
+
+// scaffold delivers the scenario's unwatched blocks to a fresh instance (and, in the restart context, closes the
+// database WITHOUT flushing the utxo cache and reopens it with the other cache size).
+func scaffold(sc *scenario, key string) (*inst, string) {
+	instMu.Lock()
+	in, e := newInst(sc, key)
+	instMu.Unlock()
+	if in == nil {
+		return nil, e
+	}
+	for i, d := range sc.dels {
+		if d.watch {
+			continue
+		}
+		if _, _, err := in.chain.ProcessBlock(btcutil.NewBlock(d.blk), blockchain.BFNone); err != nil {
+			in.close()
+			if re, ok := err.(blockchain.RuleError); ok {
+				return nil, fmt.Sprintf("err:scaffold@%d:%v", i, re.ErrorCode)
+			}
+			return nil, fmt.Sprintf("err:internal@%d", i)
+		}
+		in.delivered[d.blk.BlockHash()] = true
+	}
+	if sc.r.ctx == "restart" {
+		if e := in.reopen(sc); e != "" {
+			in.close()
+			return nil, e
+		}
+	}
+	in.tip = in.chain.BestSnapshot().Hash
+	return in, ""
+}
+
+func chainConfig(sc *scenario, db database.DB, p *chaincfg.Params, cacheMode int) *blockchain.Config {
+	cache := uint64(0)
+	if cacheMode == 1 {
+		cache = 4 << 20
+	}
+	return &blockchain.Config{
+		DB: db, ChainParams: p, TimeSource: fixedClock{sc.v.now()}, UtxoCacheMaxSize: cache,
+		SigCache: txscript.NewSigCache(1000), HashCache: txscript.NewHashCache(1000),
+	}
+}
+
+// reopen simulates a new life of the node on the same data with a different configuration.
+func (in *inst) reopen(sc *scenario) string {
+	in.db.Close()
+	p := sc.v.params()
+	if sc.bip34 != nil {
+		p.BIP0034Hash = sc.bip34
+	}
+	db, err := database.Open("ffldb", in.dir, p.Net)
+	if err != nil {
+		return "err:reopen-db"
+	}
+	in.db = db
+	chain, err := blockchain.New(chainConfig(sc, db, p, 1-sc.r.cache))
+	if err != nil {
+		return "err:reopen-chain"
+	}
+	in.chain = chain
+	return ""
 }
 
 // acquire returns an instance with the scenario's scaffold delivered.
@@ -363,25 +426,7 @@ func acquire(sc *scenario) (*inst, string) {
 		in.close()
 		break
 	}
-	in, e := newInst(sc, key)
-	if in == nil {
-		return nil, e
-	}
-	for i, d := range sc.dels {
-		if d.watch {
-			continue
-		}
-		if _, _, err := in.chain.ProcessBlock(btcutil.NewBlock(d.blk), blockchain.BFNone); err != nil {
-			in.close()
-			if re, ok := err.(blockchain.RuleError); ok {
-				return nil, fmt.Sprintf("err:scaffold@%d:%v", i, re.ErrorCode)
-			}
-			return nil, fmt.Sprintf("err:internal@%d", i)
-		}
-		in.delivered[d.blk.BlockHash()] = true
-	}
-	in.tip = in.chain.BestSnapshot().Hash
-	return in, ""
+	return scaffold(sc, key)
 }
 
 func release(in *inst) {
@@ -396,54 +441,135 @@ func release(in *inst) {
 	}
 }
 
+func ruleClass(err error) (string, bool) {
+	re, ok := err.(blockchain.RuleError)
+	if !ok {
+		return "", false
+	}
+	cls, ok := classOf[re.ErrorCode]
+	if !ok {
+		cls = "other-" + re.ErrorCode.String()
+	}
+	return cls, true
+}
+
+func serialize(b *wire.MsgBlock) []byte {
+	var buf bytes.Buffer
+	b.Serialize(&buf)
+	return buf.Bytes()
+}
+
+type entrySnap struct {
+	e      *blockchain.UtxoEntry
+	amount int64
+	spent  bool
+	height int32
+}
+
 func (sc *scenario) run() string {
 	in, e := acquire(sc)
 	if in == nil {
 		return e
 	}
+	out, reusable := sc.runOn(in)
+	if reusable {
+		release(in)
+	} else {
+		in.close()
+	}
+	return out
+}
+
+// runOn delivers the watched blocks to an instance that already holds the scaffold.
+func (sc *scenario) runOn(in *inst) (string, bool) {
 	chain := in.chain
+	// "results are values": things observed BEFORE the deliveries must read the same AFTER them
+	value := ""
+	candBytes := serialize(sc.cand)
+	snapPtr := chain.BestSnapshot()
+	snapCopy := *snapPtr
+	var snaps []entrySnap
+	if len(sc.cand.Transactions) > 1 {
+		if view, err := chain.FetchUtxoView(btcutil.NewTx(sc.cand.Transactions[1])); err == nil {
+			for _, e := range view.Entries() {
+				if e != nil {
+					snaps = append(snaps, entrySnap{e, e.Amount(), e.IsSpent(), e.BlockHeight()})
+				}
+			}
+		}
+	}
 	verdict := ""
+	note := func(err error, i int) bool {
+		if err == nil {
+			return true
+		}
+		cls, ok := ruleClass(err)
+		if !ok {
+			verdict = fmt.Sprintf("err:internal@%d", i)
+			return false
+		}
+		if verdict == "" {
+			verdict = cls
+		}
+		return true
+	}
 	for i, d := range sc.dels {
 		if !d.watch {
 			continue
 		}
 		in.delivered[d.blk.BlockHash()] = true
 		var err error
-		if sc.r.ctx == "tmpl" {
+		switch {
+		case sc.r.ctx == "tmpl":
 			err = chain.CheckConnectBlockTemplate(btcutil.NewBlock(d.blk))
-		} else if d.hdr {
+		case d.hdr:
 			_, err = chain.ProcessBlockHeader(&d.blk.Header, blockchain.BFNone, false)
-		} else {
+		case sc.r.ctx == "nopow":
+			_, _, err = chain.ProcessBlock(btcutil.NewBlock(d.blk), blockchain.BFNoPoWCheck)
+		case sc.r.ctx == "tmpltip":
+			// the template check first, twice, then the delivery: all three must agree
+			t1, t2 := chain.CheckConnectBlockTemplate(btcutil.NewBlock(d.blk)), chain.CheckConnectBlockTemplate(btcutil.NewBlock(d.blk))
+			_, _, err = chain.ProcessBlock(btcutil.NewBlock(d.blk), blockchain.BFNone)
+			c1, _ := ruleClass(t1)
+			c2, _ := ruleClass(t2)
+			c3, _ := ruleClass(err)
+			if (t1 == nil) != (err == nil) || (t2 == nil) != (err == nil) || c1 != c3 || c2 != c3 {
+				value = "template:" + c1 + "/" + c2 + "/" + c3
+			}
+		default:
 			_, _, err = chain.ProcessBlock(btcutil.NewBlock(d.blk), blockchain.BFNone)
 		}
-		if err == nil {
-			continue
+		if !note(err, i) {
+			return verdict, false
 		}
-		re, ok := err.(blockchain.RuleError)
-		if !ok {
-			in.close()
-			return fmt.Sprintf("err:internal@%d", i)
-		}
-		if verdict == "" {
-			cls, ok := classOf[re.ErrorCode]
-			if !ok {
-				cls = "other-" + re.ErrorCode.String()
-			}
-			verdict = cls
+	}
+	if !bytes.Equal(candBytes, serialize(sc.cand)) {
+		value = "block-mutated"
+	}
+	if sc.r.ctx != "tmpl" && *snapPtr != snapCopy {
+		value = "snapshot-mutated"
+	}
+	for _, s := range snaps {
+		if s.e.Amount() != s.amount || s.e.IsSpent() != s.spent || s.e.BlockHeight() != s.height {
+			value = "view-mutated"
 		}
 	}
 	best := chain.BestSnapshot()
 	ch := sc.cand.BlockHash()
 	inMain := b2i(chain.MainChainHasBlock(&ch))
-	height := best.Height
-	release(in)
+	have, _ := chain.HaveBlock(&ch)
+	tail := fmt.Sprintf("in=%d h=%d st=%d", inMain, best.Height, b2i(have))
+	if value != "" {
+		tail += " value=" + value
+	}
+	reusable := best.Hash == in.tip
 	if verdict == "" {
-		return fmt.Sprintf("accept in=%d h=%d", inMain, height)
+		return "accept " + tail, reusable
 	}
 	if sc.mode == "VC" {
-		return fmt.Sprintf("reject:%s in=%d h=%d", verdict, inMain, height)
+		return "reject:" + verdict + " " + tail, reusable
 	}
-	return fmt.Sprintf("reject in=%d h=%d", inMain, height)
+	return "reject " + tail, reusable
 }
 
 var scMemo = map[string]*scenario{}
@@ -486,7 +612,7 @@ func Lines(seed uint64, thorough bool) []string {
 }
 
 func generate(R *core.Rand, thorough bool, emit func(class string, nontrivial bool, line string)) {
-	ctxs := []string{"tip", "side", "orphan", "fork", "side2", "tmpl", "orphan2", "orphan3", "hdr", "shuffle"}
+	ctxs := []string{"tip", "side", "orphan", "fork", "side2", "tmpl", "orphan2", "orphan3", "hdr", "shuffle", "nopow", "restart", "tmpltip"}
 	for vi, v := range variants {
 		for _, m := range mutators {
 			if !m.applies(v, v.baseLen()+1) {
@@ -504,7 +630,7 @@ func generate(R *core.Rand, thorough bool, emit func(class string, nontrivial bo
 					}
 					a = int64(R.Intn(len(m.args)))
 					r := recipe{vi, ctxs[R.Intn(len(ctxs))], R.Intn(2), m.name, a}
-					if sc := buildScenario(r); sc != nil && r.ctx != "tmpl" {
+					if sc := buildScenario(r); sc != nil && r.ctx != "tmpltip" {
 						if _, dup := scMemo[r.String()]; !dup {
 							scMemo[r.String()] = sc
 							emit("combo/"+r.ctx, true, sc.line())
@@ -533,8 +659,8 @@ func generate(R *core.Rand, thorough bool, emit func(class string, nontrivial bo
 					}
 				}
 				for _, r := range picks {
-					if r.ctx == "tmpl" && (m.name == "highhash" || (m.name == "bits" && a == 0x1d00ffff)) {
-						continue // the template check skips the hash comparison
+					if r.ctx == "tmpltip" && (m.name == "highhash" || (m.name == "bits" && (a == 0x1d00ffff || a == 0 || a == 0x20800001))) {
+						continue // template check and delivery differ by design on the hash comparison
 					}
 					if (m.name == "weight" || m.name == "basesize") && !thorough && vi != 0 && vi != 1 && vi != 2 {
 						continue
